@@ -415,6 +415,92 @@ func Gate(fn *ssa.Function, g Guard, success SuccessFn) GateResult {
 	return res
 }
 
+// OpaqueDispatch reports a call in fn's region whose target the analysis cannot follow and that
+// may hold the steps a rule looks for: a method call through an unexported interface of the
+// repository (a strategy object), or a call of a function value taken from a table (a list or
+// struct of functions: stages, rules). Exported interfaces (PDU, IRoomVersion, ...) are API with
+// a meaning of their own and do not count. Returns a description, or "".
+func OpaqueDispatch(fn *ssa.Function) string {
+	var fromTable func(v ssa.Value, depth int) bool
+	fromTable = func(v ssa.Value, depth int) bool {
+		if depth > 8 || v == nil {
+			return false
+		}
+		switch x := v.(type) {
+		case *ssa.UnOp:
+			if g, ok := x.X.(*ssa.Global); ok {
+				switch g.Type().Underlying().(*types.Pointer).Elem().Underlying().(type) {
+				case *types.Slice, *types.Array, *types.Map:
+					return true
+				}
+				return false
+			}
+			return fromTable(x.X, depth+1)
+		case *ssa.IndexAddr:
+			return fromTable(x.X, depth+1)
+		case *ssa.Index:
+			return fromTable(x.X, depth+1)
+		case *ssa.Lookup:
+			return true
+		case *ssa.Slice:
+			return fromTable(x.X, depth+1)
+		case *ssa.Extract:
+			return fromTable(x.Tuple, depth+1)
+		case *ssa.Next:
+			return fromTable(x.Iter, depth+1)
+		case *ssa.Range:
+			return fromTable(x.X, depth+1)
+		case *ssa.FieldAddr:
+			return fromTable(x.X, depth+1)
+		case *ssa.Field:
+			return fromTable(x.X, depth+1)
+		case *ssa.Phi:
+			for _, e := range x.Edges {
+				if fromTable(e, depth+1) {
+					return true
+				}
+			}
+		case *ssa.Alloc:
+			if arr, ok := x.Type().Underlying().(*types.Pointer).Elem().Underlying().(*types.Array); ok {
+				_, isFn := arr.Elem().Underlying().(*types.Signature)
+				if isFn {
+					return true
+				}
+				if st, isSt := arr.Elem().Underlying().(*types.Struct); isSt {
+					for i := 0; i < st.NumFields(); i++ {
+						if _, f := st.Field(i).Type().Underlying().(*types.Signature); f {
+							return true
+						}
+					}
+				}
+			}
+		}
+		return false
+	}
+	for _, dc := range AllDeepCalls(fn, nil) {
+		cm := dc.Call.Common()
+		if cm.IsInvoke() {
+			if named, ok := cm.Value.Type().(*types.Named); ok {
+				obj := named.Obj()
+				if obj != nil && obj.Pkg() != nil && strings.HasPrefix(obj.Pkg().Path(), ModPath) && !obj.Exported() {
+					return "a method call through the unexported interface " + obj.Name() + " (" + cm.Method.Name() + ")"
+				}
+			}
+			continue
+		}
+		if cm.StaticCallee() != nil || cm.Value == nil {
+			continue
+		}
+		if _, isBuiltin := cm.Value.(*ssa.Builtin); isBuiltin {
+			continue
+		}
+		if fromTable(cm.Value, 0) {
+			return "a call of a function value taken from a table"
+		}
+	}
+	return ""
+}
+
 // ---- guard constructors ----
 
 // ErrResultOf reports whether v is the error-typed result of a call whose callee matches.
@@ -573,6 +659,10 @@ func (c *Ctx) CheckGate(rule string, fn *ssa.Function, fnName string, g Guard, s
 			c.add(rule, construct, c.P.Pos(fn.Pos()), Undecided, msg+" (the check is made in a helper whose verdict the gate could not follow)")
 			return false
 		}
+		if od := OpaqueDispatch(fn); od != "" {
+			c.add(rule, construct, c.P.Pos(fn.Pos()), Undecided, msg+" (the routine works through "+od+": the steps behind it are not visible to the gate)")
+			return false
+		}
 		if !exists || !anySuccess || g.Callee == nil {
 			c.add(rule, construct, c.P.Pos(fn.Pos()), Undecided, msg)
 		} else {
@@ -588,6 +678,11 @@ func (c *Ctx) CheckGate(rule string, fn *ssa.Function, fnName string, g Guard, s
 			if !e.Uncertain {
 				allUncertain = false
 			}
+		}
+		if od := OpaqueDispatch(fn); od != "" && len(r.Sites) == 0 {
+			// the guard was only found as a tail/helper site and the routine dispatches opaquely
+			c.add(rule, construct, c.P.Pos(InstrPos(r.Escapes[0].Ret)), Undecided, fmt.Sprintf("%s works through %s: which returns follow %s is not visible to the gate", fnName, od, g.Name))
+			return false
 		}
 		if allUncertain {
 			c.add(rule, construct, c.P.Pos(InstrPos(r.Escapes[0].Ret)), Undecided, fmt.Sprintf("%s returns, before %s, an error value read from a field or element (return at %s): whether it can be nil there was not traced", fnName, g.Name, c.P.Pos(InstrPos(r.Escapes[0].Ret))))
